@@ -15,7 +15,11 @@ package model
 // otherwise it is the cropped one
 //@ event ErrorCauseCropped = ret rapi/model.(*ErrorCause).croppedJSON
 //@ const MaxErrorCauseSizeBytes == 65536
+// the cropped document is itself within the limit (escaping can inflate the strings that the crop cut by raw length)
+//@ func (*ErrorCause).croppedJSON
+//@   ensures [the-cropped-cause-is-within-the-limit] len(r0) <= MaxErrorCauseSizeBytes
 //@ func ValidatedErrorCauseJSON
+//@   ensures [within-the-limit] r1 == nil ==> len(r0) <= MaxErrorCauseSizeBytes
 //@   ensures [within-the-limit-unless-cropped] r1 == nil && delta(ErrorCauseCropped) == 0 ==> len(r0) <= MaxErrorCauseSizeBytes
 //@   ensures [cropped-is-returned-as-is] r1 == nil && delta(ErrorCauseCropped) == 1 ==> r0 == lastret(ErrorCauseCropped)
 //@   ensures [cropped-at-most-once] delta(ErrorCauseCropped) <= 1
